@@ -118,6 +118,8 @@ def classify(rec, exp):
         return "seq:theil-sen-median-or-p-range"
     if op == "bh":
         return "bh:panic" if rec.get("panic") else "bh:keep-mask"
+    if op == "ts":
+        return "ts:theil-sen-median-or-mann-kendall-s-beyond-the-exhaustive-bound"
     if op == "ord":
         return "ord:%s-p-not-a-decreasing-function-of-the-statistic" % rec.get("kind")
     return str(op)
